@@ -603,6 +603,12 @@ class ExprMixin:
         if isinstance(ty, T.Seq):
             xe = self.coerce(x, ty.elem)
             return z3.Select(self.elems(cont).t, xe.t)
+        if isinstance(ty, T.Rec) and ty.name in self.dict_records and x.ty == T.Str and z3.is_string_value(x.t):
+            f = x.t.as_string()
+            if f in ty.fields:
+                fty = ty.fields[f]
+                return fty.is_some(ty.get(cont.t, f)) if isinstance(fty, T.Opt) else z3.BoolVal(True)
+            raise Unsupported(f"key {f!r} outside the declared key universe of {ty.name}")
         raise Unsupported(f"`in` on {ty}")
 
     def ev_BinOp(self, node, st, want):
@@ -787,7 +793,12 @@ class ExprMixin:
         if isinstance(node.slice, ast.Slice):
             return self.seq_slice(base, node.slice, st, node)
         if isinstance(base.ty, T.Rec) and isinstance(node.slice, ast.Constant) and isinstance(node.slice.value, str):
-            return self.select(st, base, "field", node.slice.value, node)
+            v = self.select(st, base, "field", node.slice.value, node)
+            if base.ty.name in self.dict_records and isinstance(v.ty, T.Opt) and not self.spec_mode:
+                # a dict with a fixed universe of optional string keys: d["k"] raises KeyError when "k" is absent
+                self.check(st, v.ty.is_some(v.t), f"KeyError({node.slice.value!r})", node)
+                return SV(v.ty.val(v.t), v.ty.inner)
+            return v
         k = self.ev(node.slice, st)
         kind = "key" if isinstance(base.ty, T.Map) else "idx"
         return self.select(st, base, kind, k, node)
